@@ -60,6 +60,9 @@ CHECKS.update({
  "C20": ("model_checking", "small-scope exhaustive enumeration with overwrite-after-call fault patterns and a deep reachability digest",
          "Build: keys/values/Opt (81 pointer combinations on the smallest sets, both call forms) compared with deep copies, then caller memory overwritten: observations and deep digest unchanged. Load: every current-format stream of the space and every legacy layout's stream: buffer unmodified, then overwritten with 00/ff/address pattern: observations AND digest unchanged. Marshal: returned bytes overwritten: observations, digest and second Marshal unchanged.",
          "Retention through uintptr or closures would escape the digest.", "5.C20"),
+ "C11": ("model_checking", "stateless schedule exploration of the real read paths under a cooperative scheduler (scheduling points injected before every statement at build time), complete over the interleaving lattice via a read-only-prefix state cache, plus preemption-bounded exploration without the cache; auxiliary free-running -race pass",
+         "6 shared instances (fresh complete / filter+dedup / 257-bit root + short nodes / loaded current / loaded 0.5.10-allpref / loaded 0.5.9) x pairs (and triples) of 15 read operations with colliding arguments. Every state and transition of each two-thread interleaving lattice is covered while no step changes the watched shared memory (checked after every step); all schedules with <= 2/3 preemptions are additionally run without the cache on short scenarios; oracle: each call returns exactly its solo result; replay determinism enforced. The -race pass over the same bodies (2..32 goroutines) is reported separately.",
+         "Statement-level scheduling granularity in packages trie/encode/array/index; dependencies run atomically within a step; Go memory model not modelled; memo fields of protobuf excluded from the watch.", "5.C11"),
 })
 NOT_YET = {}
 
